@@ -150,7 +150,9 @@ package authboss
 //@   ensures[C11,C09,C10] write_error_reported: each CS.WriteState(_, _, _, _) -> ?e => e != nil ==> result == e
 //@
 //@ func (*ClientStateResponseWriter).WriteHeader
-//@   property C11
+//@   property C11 C09 C10
+//@   -- (C09/C10 since round 11: the refreshed stamp, the expiry wipe and the logout wipe reach
+//@   -- the client only through this flush - C09k skipped it for 204/304 answers)
 //@   requires lists_distinct(c)
 //@   -- pending changes are flushed before the header is released, and only on the first write
 //@   ensures flush_before_header: (each WriteHeader(?w, ?cd) => w == c.ResponseWriter && cd == code && !(after CS.WriteState(_, _, _, _)) && !(before WriteHeader(_, _))) &&
@@ -164,7 +166,9 @@ package authboss
 //@   ensures later_writes_never_panic: c.hasWritten ==> !panics
 //@
 //@ func (*ClientStateResponseWriter).Write
-//@   property C11
+//@   property C11 C09 C10
+//@   -- (C09/C10 since round 11: the refreshed stamp, the expiry wipe and the logout wipe reach
+//@   -- the client only through this flush - C09k skipped it for 204/304 answers)
 //@   requires lists_distinct(c)
 //@   ensures flush_before_body: (each Write(?w, ?bb) => w == c.ResponseWriter && !(after CS.WriteState(_, _, _, _)) && !(before Write(_, _))) &&
 //@       (c.hasWritten ==> !emits CS.WriteState(_, _, _, _))
@@ -218,6 +222,10 @@ package authboss
 //@   -- C09: the identity of a request is read from exactly two places - the context pid and
 //@   -- the session's uid - which are the two the expiry middleware hides
 //@   ensures hidden_means_anonymous: (ctxpid(r) == nil && !sess_has(r, SessionKey)) ==> (result.0 == "" && result.1 == nil)
+//@   -- C08/C01 (round 11, C08k): the identifier is the one the session names, verbatim - no
+//@   -- trimming, case folding or other normalisation between the session and the storage lookup
+//@   ensures[C08,C01,C09] id_is_session_uid: (ctxpid(r) == nil && sess_has(r, SessionKey)) ==> (result.0 == sess(r, SessionKey) && result.1 == nil)
+//@   ensures[C08,C01,C09] context_pid_wins: ctxpid(r) != nil ==> (result.0 == asstring(ctxpid(r)) && result.1 == nil)
 //@
 //@ func (*Authboss).CurrentUser
 //@   property C09 C03 C04 C16
@@ -288,11 +296,13 @@ package authboss
 
 //
 //@ func (*Authboss).Init
-//@   property C11
+//@   property C11 C03 C04 C09
+//@   -- (C03/C04/C09 since round 11: the lock thresholds and the idle limit the modules read at
+//@   -- run time are the ones the integrator configured - C04k lowered LockWindow in Init)
 //@   -- frame: Init completes the configuration with the default hasher and nothing else of its
 //@   -- own; which client-state store is the session store and which the cookie store stays
 //@   -- what the integrator configured (modules are loaded through their own Init)
-//@   ensures[C11] stores_as_configured: each MemWrite(?p, _, _) => suffixof(".Hasher", p)
+//@   ensures[C11,C03,C04,C09] stores_as_configured: each MemWrite(?p, _, _) => suffixof(".Hasher", p)
 //
 //@ -- The other constructors of the access middleware hand their arguments through unchanged.
 //@ func Middleware
@@ -326,7 +336,7 @@ package authboss
 //@   ensures parse_inverts_make: result.2 == nil ==> pid == "oauth2;;" + result.0 + ";;" + result.1
 //
 //@ func (*Authboss).loadModule
-//@   property C10 C11 C20
+//@   property C10 C11 C20 C19 C03
 //@   -- every instance gets module objects of its own: a handler mounted by one instance never
 //@   -- runs with another instance's configuration (its whitelist, its stores, its paths)
 //@   option summary callers use this contract, not the body
